@@ -10,7 +10,7 @@ resources and watchers.
 -/
 import GrpcProofs.Lemmas.XdsAuth
 namespace GrpcProofs.C43
-open GrpcModel.XdsAuth GrpcProofs.Lemmas.XdsAuth
+open GrpcModel.XdsAuth GrpcModel.XdsAuth.Spec GrpcProofs.Lemmas.XdsAuth
 
 /-! ### ResourceChanged only with a resource the client accepted -/
 
@@ -46,5 +46,53 @@ theorem changed_only_with_accepted (n : Nat) (ign : List Bool) (hist : List AEv)
   have := cacheAcc_run (hist ++ [e]) (Auth.init n ign) [] (by simp [Auth.init])
   rw [run_snoc] at this
   simpa using this p hp c hc
+
+/-! ### never ResourceChanged for an update identical to the one the watcher holds, unless a NACK intervened -/
+
+/-- histories in which every `watch` call brings a new watcher (as `WatchResource` does: the returned cancel
+    function is tied to that registration) -/
+def FreshRun : Auth → List AEv → Prop
+  | _, [] => True
+  | a, e :: es => Fresh a e ∧ FreshRun (a.step e).auth es
+
+/-- along a history, feed every watcher's callbacks (in order) to `Spec.okSeq`: the per-watcher record
+    `WG` remembers the content of the last ResourceChanged (forgotten on a ResourceError) and whether a NACK
+    was reported since; `okSeq` is false iff some ResourceChanged repeats the held content without a NACK in
+    between. The same `okSeq` / `WG.apply` run in the monitor on the implementation's callback log. -/
+def NoDupRun : Auth → (Nat → WG) → List AEv → Prop
+  | _, _, [] => True
+  | a, G, e :: es =>
+    (∀ w, okSeq (ghost0 G e w) (cbsFor w (a.step e).cbs) = true) ∧
+    NoDupRun (a.step e).auth (ghostStep G e (a.step e).cbs) es
+
+theorem noDupRun_of_inv (es : List AEv) (a : Auth) (G : Nat → WG) (hi : AInv a) (hg : Agree a G)
+    (hf : FreshRun a es) : NoDupRun a G es := by
+  induction es generalizing a G with
+  | nil => trivial
+  | cons e es ih =>
+    obtain ⟨hfe, hfr⟩ := hf
+    have := ghost_step hi hg hfe
+    exact ⟨this.1, ih _ _ (inv_step hi hfe) this.2 hfr⟩
+
+/-- **C43, clause 2.** In every history (any interleaving of watches, unwatches, responses of any server,
+    expiries and stream failures) no watcher ever receives ResourceChanged with the content it already holds
+    unless a NACK was reported to it since it received that content. -/
+theorem no_duplicate_changed_unless_nack_intervened (n : Nat) (ign : List Bool) (hist : List AEv)
+    (hf : FreshRun (Auth.init n ign) hist) : NoDupRun (Auth.init n ign) (fun _ => {}) hist :=
+  noDupRun_of_inv hist _ _ (inv_init n ign) (by intro p hp; simp [Auth.init] at hp) hf
+
+/-- the predicate is not vacuous: it rejects a repeated ResourceChanged … -/
+example : okSeq {} [.changed "c", .changed "c"] = false := by decide
+/-- … accepts the repetition after a NACK (the code re-notifies because `md.ErrState != nil`) … -/
+example : okSeq {} [.changed "c", .ambErr (.nack "e"), .changed "c"] = true := by decide
+/-- … and the model does produce that sequence: accept c, reject, accept c again. -/
+example :
+    let a0 := (Auth.init 1 [false]).step (.watch ⟨"T", "r"⟩ 1)
+    let a1 := a0.auth.step (.update 0 1 "T" "v1" [("r", .ok "c")])
+    let a2 := a1.auth.step (.update 0 1 "T" "v2" [("r", .bad "e")])
+    let a3 := a2.auth.step (.update 0 1 "T" "v3" [("r", .ok "c")])
+    let a4 := a3.auth.step (.update 0 1 "T" "v4" [("r", .ok "c")])
+    (a1.cbs, a2.cbs, a3.cbs, a4.cbs) =
+      ([⟨1, .changed "c"⟩], [⟨1, .ambErr (.nack "e")⟩], [⟨1, .changed "c"⟩], []) := by decide
 
 end GrpcProofs.C43
